@@ -178,6 +178,7 @@ func runC12(c *core.Ctx) {
 	c.Rule("R2", "without look-back the result is independent of the clock", 6)
 	c.Rule("R3", "read-only instances enter a shard only through the inclusion predicate, whose table is exact", 4)
 	c.Rule("R4", "partition variant seeds with ShuffleShardSeed(identifier, \"\")", 1)
+	c.Rule("R8", "the zone list and the other derived fields the walk reads are replaced unconditionally on a topology change (shared with C13.R8)", 1)
 	c.Rule("R7", "a shard is cached only if the ring's topology did not change since it was computed (shared with C13.R3)", 2)
 	c.Rule("R6", "public wrappers: the walk is skipped only for size ≤ 0; identifier and size passed on unchanged", 2)
 	c.Rule("R5", "out-of-range partition shard size falls back to the number of all partitions", 1)
@@ -293,6 +294,7 @@ func runC12(c *core.Ctx) {
 		c.Check(len(got) == 1 && got[0] == "len(recv.desc.Partitions)", "R5", "func=(*PartitionRing).shuffleShard:size", fn.Pos(), fmt.Sprintf("size replaced by %v when out of range (must be the number of all partitions so the walk can still reach inactive partitions inside the look-back window)", got), 1)
 	}
 	c13Fills(c, pkg, "R7")
+	c13RefreshAll(c, pkg, "R8")
 	// ---- R6: the public wrappers skip the sharding walk only for size <= 0 and pass identifier and size on unchanged
 	for _, name := range []string{"Ring.ShuffleShard", "Ring.ShuffleShardWithLookback"} {
 		fn := an.FindFunc(pkg, name)
